@@ -121,6 +121,9 @@ pub struct RiFacts {
     pub shadowed_env: bool,
     pub row_after_loop_end: bool,
     pub virtual_evals: usize,
+    /// device reads (in expressions) of a value that differs from the previous call's, after >= 2 calls
+    pub fresh_reads: usize,
+    pub device_reads: usize,
 }
 
 #[derive(Clone, Debug)]
@@ -156,6 +159,7 @@ struct Ri<'a> {
     frames: Vec<Vec<(String, i64)>>,
     /// outputs of the last output-reading call, by signal name
     outs: BTreeMap<String, OutVal>,
+    prev_outs: BTreeMap<String, OutVal>,
     draws: Option<VecDeque<DrawEv>>,
     items: Vec<RiItem>,
     end: RiEnd,
@@ -283,6 +287,12 @@ impl Resolver for FullResolver<'_, '_> {
                 if let Some((_, v)) = f.iter().rev().find(|(n, _)| n == name) {
                     return Ok(*v);
                 }
+            }
+        }
+        if !self.no_vars {
+            self.ri.facts.device_reads += 1;
+            if self.ri.dev.reads >= 2 && self.ri.prev_outs.get(name) != self.ri.outs.get(name) {
+                self.ri.facts.fresh_reads += 1;
             }
         }
         match self.ri.outs.get(name) {
@@ -597,6 +607,7 @@ impl<'a> Ri<'a> {
                         }
                         Ok((c, answer)) => {
                             row.read_call = Some(c);
+                            self.prev_outs = std::mem::take(&mut self.outs);
                             self.outs = answer
                                 .iter()
                                 .map(|(s, v)| (self.sigs[*s].name.clone(), *v))
@@ -654,6 +665,7 @@ pub fn run(prog: &Program, sigs: &[Sig], spec: &DriverSpec, opts: &RiOpts) -> Ri
         opts,
         frames: vec![vec![]],
         outs: BTreeMap::new(),
+        prev_outs: BTreeMap::new(),
         draws: opts.draws.clone().map(VecDeque::from),
         items: vec![],
         end: RiEnd::Finished,
